@@ -552,3 +552,60 @@ def _join_task(a, nl, nr, R, role):
                         'per side in every way; real join operator driven from MIR, every arrival interleaving incl. which side '
                         'ends first; one iteration' % (a, nl, nr, R), role=role,
                  opts={'covers': ['matched_pair']}, budget=600)
+
+
+# ------------------------------------------------------------------------------------ merge (C09)
+
+def merge_plan_harness(w, nl, nr, R):
+    fns = w.impls[(None, 'Stream')]['merge']
+    fn = [f for f in fns if 'Keyed' not in f.header.split('(')[0]][0] if len(fns) > 1 else fns[0]
+
+    def h(ex):
+        lefts = [Int('u64', 10 + j) for j in range(nl)]
+        rights = [Int('u64', 20 + j) for j in range(nr)]
+        il, ir = [[] for _ in range(R)], [[] for _ in range(R)]
+        wl, wr = [], []
+        for it in lefts:
+            wl.append(ex.choose(R, 'source replica'))
+            il[wl[-1]].append(it)
+        for it in rights:
+            wr.append(ex.choose(R, 'source replica'))
+            ir[wr[-1]].append(it)
+        if ex.env.get('native'):
+            runner, prof = ex.env['native']
+            ex.env['native_used'] = True
+            txt = runner('pipe_merge', [R, nl] + [x.v for x in lefts] + [nr] + [x.v for x in rights])[prof]
+            ex.env['native_out'] = txt
+            if txt == 'PANIC' or txt.startswith(('BADARGS', 'UNKNOWN', 'NORESULT', 'NOOUTPUT', 'TIMEOUT')):
+                raise Unsupported('native driver: ' + txt)
+            got = sorted(int(t) for t in txt.split() if t != '-')
+            if got != sorted(x.v for x in lefts + rights):
+                raise Violation('the real merge job yields %s, expected the multiset union of %s and %s' %
+                                (got, [x.v for x in lefts], [x.v for x in rights]), hlib._wit(ex))
+            return {'native': txt}
+        res = ex.call_function(fn, [SymStream(), SymStream()])
+        plan = unwrap_stream(res)
+        outs = evaluate(ex, w, plan, il, R, inputs_right=ir)
+        got = sorted(e.fields[0].v for o in outs for e in _data(o))
+        sx = lambda: {'left': [[repr(x) for x in p] for p in il], 'right': [[repr(x) for x in p] for p in ir],
+                      'output': [[repr(e) for e in o] for o in outs]}
+        if got != sorted(x.v for x in lefts + rights):
+            raise Violation('merge output %s is not the multiset union of its inputs' % got, hlib._wit(ex), sx())
+        for o in outs:
+            ids = [e.fields[0].v for e in _data(o)]
+            for side in (lefts, rights):
+                mine = [x for x in ids if x in [s.v for s in side]]
+                if mine != sorted(mine):
+                    raise Violation('merge reordered the elements of one producer', hlib._wit(ex), sx())
+        if len(got) > 1:
+            hlib.cover(ex, 'merged')
+        return sx()
+    return h
+
+
+def merge_plan_tasks(tier, role):
+    nl, nr = (2, 1) if tier == 'quick' else (2, 2)
+    return [Task('plan_merge', 'merge_plan_harness', {'nl': nl, 'nr': nr, 'R': 2},
+                 bounds='Stream::merge executed from MIR into a logical plan (binary connection + the real filter_map closure), '
+                        'evaluated over %d + %d items spread over 2 replicas per side in every way, every arrival interleaving' %
+                        (nl, nr), role=role, opts={'covers': ['merged']}, budget=300)]
